@@ -94,10 +94,16 @@ VER = posixpath.join(CACHE, '.cache-version')
 TOP = posixpath.dirname(giscanner.__file__)
 ARGV0 = '/install/bin/g-ir-scanner'
 ALIASES = {SRC: 'src', ENTRY: 'entry', VER: 'ver', CACHE: 'cachedir'}
+# The scanner installation as seen by a process: mtimes of giscanner/*.py and of sys.argv[0]
+# (what the version stamp is documented to hash).  Distinct per file, so that "older than all",
+# "between" and "newest" are meaningful for an upgrade of a single module.
+MODULES = {'ast.py': posixpath.join(TOP, 'ast.py'), 'cachestore.py': posixpath.join(TOP, 'cachestore.py'),
+           'g-ir-scanner': ARGV0}
 INSTALLS = {
-    'H1': {posixpath.join(TOP, 'ast.py'): 100, posixpath.join(TOP, 'cachestore.py'): 100, ARGV0: 100},
-    'H2': {posixpath.join(TOP, 'ast.py'): 200, posixpath.join(TOP, 'cachestore.py'): 200, ARGV0: 200},
+    'H1': {MODULES['ast.py']: 100.5, MODULES['cachestore.py']: 150.5, MODULES['g-ir-scanner']: 120.5},
+    'H2': {MODULES['ast.py']: 200.5, MODULES['cachestore.py']: 250.5, MODULES['g-ir-scanner']: 220.5},
 }
+UPGRADE_MTIME = {'older-than-all': 50.25, 'between': 130.25, 'newest': 300.25}
 VERSIONS = (1, 2, 3)
 NS = {'core': 'http://www.gtk.org/introspection/core/1.0', 'c': 'http://www.gtk.org/introspection/c/1.0'}
 
@@ -309,7 +315,10 @@ def classify(mon, c, reasons):
         reads = [e for e in ev if e[3] == 'read' and e[4] == ENTRY]
         ino = reads[0][5]
         placed = [k for k, e in enumerate(allev) if e[5] == ino and e[4] == ENTRY and e[3] in ('rename', 'copy-open')]
-        listed = [k for k, e in enumerate(allev) if e[3] == 'listdir' and e[4] == CACHE]
+        # a purge on behalf of the reader's scanner version did happen, and the entry arrived after it
+        inst = dict((k['actor'], k['install']) for k in mon.calls + list(mon.open.values()) + [c])
+        listed = [k for k, e in enumerate(allev) if e[3] == 'listdir' and e[4] == CACHE
+                  and inst.get(e[1]) == c['install']]
         if placed and listed and placed[-1] > listed[0]:
             return 'old-version-store-survives-purge'
         return 'version-change-does-not-discard-entry'
@@ -694,9 +703,110 @@ def _work_seq(unit):
     return part.result()
 
 
+# ------------------------------------------------- scanner-upgrade family ---
+UPG = 'scanner-upgrade(sequential)'
+
+
+def upgrade_histories():
+    """Histories of 1 and 2 upgrade operations upgrade(module, new mtime class); a scanner process
+    of the then-current installation runs after every operation."""
+    ops = [(m, c) for m in sorted(MODULES) for c in sorted(UPGRADE_MTIME)]
+    hist = [(o,) for o in ops]
+    hist += [(a, b) for a in ops for b in ops]
+    return hist
+
+
+def _apply_upgrade(files, op, step):
+    m, c = op
+    new = dict(files)
+    # a second operation of the same class on the same file must still change its mtime
+    new[MODULES[m]] = UPGRADE_MTIME[c] + 0.125 * step
+    return new
+
+
+def upg_run(history):
+    """One process at a time, harness-owned clock.  S0 (installation H1) scans and stores; then for
+    every upgrade operation a process of the upgraded installation constructs CacheStore(), loads,
+    and scans.  R4 applies to every call: no entry written under another installation is returned."""
+    ex = make_exec('sequential', 'absent', 'rename')
+    mon = ex.monitor
+    installs = dict(INSTALLS)
+    ex.vfs.install_files = installs
+    a = ex.solo('S0', 'H1')
+    tr = gtransformer.Transformer(None)
+    _call(mon, a, 'scan', lambda: tr._parse_include(SRC))
+    files = INSTALLS['H1']
+    steps = a.nsteps
+    changed = []
+    for k, op in enumerate(history):
+        new = _apply_upgrade(files, op, k)
+        changed.append(new != files)
+        files = new
+        name = 'U%d' % (k + 1)
+        installs[name] = files
+        a = ex.solo('P%d' % (k + 1), name)
+        box = []
+        _call(mon, a, 'construct', lambda: box.append(cachestore.CacheStore()))
+        if box:
+            _call(mon, a, 'load', lambda: box[0].load(SRC))
+        _call(mon, a, 'scan', lambda: gtransformer.Transformer(None)._parse_include(SRC))
+        steps += a.nsteps
+    ex.seq_steps = steps
+    if not all(changed):
+        raise HarnessBroken('upgrade %r did not change any mtime' % (history,))
+    return ex
+
+
+def _work_upg(unit):
+    _, hists = unit
+    part = Part()
+    best = {}
+    for h in hists:
+        h = tuple(tuple(o) for o in h)
+        ex = upg_run(h)
+        res = results_of(ex)
+        part.add(evaluations=1, traces_validated_against_impl=1, transitions=ex.seq_steps, states=1,
+                 **{'upgrade.histories': 1})
+        part.outcome(('upg', len(h), res))
+        part.nontrivial('upg/%r' % (h,))
+        for v in ex.monitor.violations:
+            key = '%s@%s' % (v['mechanism'], UPG)
+            rank = (len(h), 0, 0)
+            if key not in best or rank < best[key][0]:
+                best[key] = (rank, v, h, res)
+    if hists:
+        part.sample({'scenario': UPG, 'history': [list(o) for o in hists[0]],
+                     'processes': 'S0(H1): scan+store; after each upgrade: CacheStore(), load, scan'})
+    for key, (rank, v, h, res) in sorted(best.items()):
+        desc = ('%s after %s (installation H1 = %s): %s' % (
+            v['call'], ' ; '.join('upgrade(%s, new mtime %s)' % o for o in h),
+            ', '.join('%s@%g' % (m, INSTALLS['H1'][MODULES[m]]) for m in sorted(MODULES)), ' | '.join(v['reasons'])))
+        part.violation(key, desc, {'scenario': 'upgrade', 'history': [list(o) for o in h], 'mechanism': v['mechanism'],
+                                   'reasons': v['reasons'], 'rank': list(rank), 'results': [list(r) for r in res]})
+    return part.result()
+
+
+def replay_upgrade(ctx, case):
+    h = tuple(tuple(o) for o in case['history'])
+    ex = upg_run(h)
+    print('installation H1: %s' % ', '.join('%s@%g' % (m, INSTALLS['H1'][MODULES[m]]) for m in sorted(MODULES)))
+    print('history: S0(H1) scans and stores; %s; after each upgrade a new process constructs CacheStore(), loads, scans'
+          % ' ; '.join('upgrade(%s, new mtime %s = %g)' % (o[0], o[1], UPGRADE_MTIME[o[1]] + 0.125 * k)
+                       for k, o in enumerate(h)))
+    for k in ex.monitor.calls:
+        print('call %s.%s (installation %s) -> %s' % (k['actor'], k['kind'], k['install'], k['exc'] or (
+            'None' if k['summary'] == 'None' else 'parse of v%s%s' % (k.get('version', '?'),
+                                                                     ' from the cache' if k.get('from_cache') else ''))))
+    for v in ex.monitor.violations:
+        print('VIOLATED by %s [%s]: %s' % (v['call'], v['mechanism'], ' | '.join(v['reasons'])))
+    return not ex.monitor.violations
+
+
 def _work(unit):
     if unit[0] == 'seq':
         return _work_seq(unit)
+    if unit[0] == 'upg':
+        return _work_upg(unit)
     part = Part()
     tier, scn, entry, move, bounds = unit
     explore_unit(part, tier, scn, entry, move, bounds)
@@ -745,7 +855,7 @@ def units(tier):
 
 
 def _weight(u):
-    if u[0] == 'seq':
+    if u[0] in ('seq', 'upg'):
         return -30
     _, scn, entry, move, bounds = u
     w = len(SCENARIOS[scn]) ** 3 * (3 if 'scan' in scn else 1) * (2 if 'purge' in scn else 1)
@@ -757,6 +867,7 @@ def run(ctx):
     from vt.core import chunked
     seq = seq_cases(ctx.tier)
     us += [('seq', c) for c in chunked(seq, 12)]
+    us += [('upg', c) for c in chunked(upgrade_histories(), 4)]
     ctx.max_reports = 60
     # heaviest first (load balance); the seed only rotates dispatch among equal weights
     us = sorted(rotate(us, ctx.seed), key=_weight)
@@ -784,11 +895,16 @@ def run(ctx):
                  '(scenario, entry, move, result vector) in which some call returned a parse (oracle answered MUST '
                  'on its version). Sequential family (one process, no scheduling): every prefix length of a real '
                  'entry, every cut at/around a frame boundary of a multi-frame entry and a list of garbage classes, '
-                 'each under load and under _parse_include: None / a fresh parse, no exception',
+                 'each under load and under _parse_include: None / a fresh parse, no exception. Scanner-upgrade family '
+                 '(one process at a time): every history of 1-2 operations upgrade(module, new mtime older than all / '
+                 'between / newest) over 3 installation files, performed between a store and a load: no entry '
+                 'written under another installation is returned (R4)',
             bounds={'scenarios': SCN_ORDER, 'entry_states': list(ENTRY_STATES), 'moves': list(MOVES),
                     'preemption_bounds': dict((s, bounds_for(ctx.tier, s)) for s in SCN_ORDER),
                     'quick_cap_for_entries': {'trunc0/trunc2/trunc-frame': 'bounds <= 1 in the quick tier'},
                     'per_bound': per_bound,
+                    'scanner_upgrade': {'modules': sorted(MODULES), 'new_mtime_classes': sorted(UPGRADE_MTIME),
+                                        'history_length': [1, 2], 'histories': len(upgrade_histories())},
                     'sequential': {'prefix_lengths': [0, _L], 'multi_frame_entry_bytes': len(_BIG[0]),
                                    'frame_boundary_cuts': len(_frame_cuts(_BIG[0])),
                                    'garbage_classes': [n for n, _ in garbage_classes()],
@@ -835,6 +951,8 @@ def replay_sequential(ctx, case):
 def replay(ctx, case):
     if case['scenario'] == 'sequential':
         return replay_sequential(ctx, case)
+    if case['scenario'] == 'upgrade':
+        return replay_upgrade(ctx, case)
     scn, entry, move = case['scenario'], case['entry'], case['move']
     crash = 1
 
